@@ -3,6 +3,7 @@ CONSTANTS LoopDelayOwnFreeVars = TRUE
           LoopDurationMapped = TRUE
           ParamValuesReachDelays = TRUE
           ChecksBeforeSave = FALSE AliasesReachDurations = TRUE
+          DelayInputsForbidden = TRUE ExpandKeepsElements = TRUE
           Family = "cex"
 INIT Init
 NEXT Next
